@@ -39,10 +39,13 @@
 (***************************************************************************)
 EXTENDS Naturals, Sequences, FiniteSets, TLC, Json
 
-CONSTANTS Base, MaxDecls, Probing
+CONSTANTS Base, MaxDecls, Probing, MaxCtors
 
-VARIABLES decls, mnames, fnames, counter, ebases, enames
-vars == <<decls, mnames, fnames, counter, ebases, enames>>
+VARIABLES decls, mnames, fnames, counter, ebases, enames, nctors
+vars == <<decls, mnames, fnames, counter, ebases, enames, nctors>>
+
+Ctor == "<ctor>"            \* a constructor of the class (the class is called Chan)
+Class == "Chan"
 
 Range(s) == {s[i] : i \in DOMAIN s}
 Suffix(b, k) == b \o ToString(k)
@@ -65,16 +68,30 @@ TimesSeen(x) == Cardinality({i \in DOMAIN ebases : ebases[i] = x})
 ExternName(b) == LET x == ExternBase(b) IN IF TimesSeen(x) > 0 THEN Suffix(x, TimesSeen(x)) ELSE x
 
 Init == /\ decls = <<>> /\ mnames = <<>> /\ fnames = <<>> /\ counter = [b \in Base |-> 0]
-        /\ ebases = <<>> /\ enames = <<>>
+        /\ ebases = <<>> /\ enames = <<>> /\ nctors = 0
 Declare(b) ==
-  /\ Len(decls) < MaxDecls
+  /\ Len(decls) < MaxDecls /\ nctors = 0            \* CompInfo::codegen walks the methods first, then the constructors
   /\ decls' = Append(decls, b)
   /\ mnames' = Append(mnames, MethodName(b))
   /\ fnames' = Append(fnames, CounterName(b))
   /\ ebases' = Append(ebases, ExternBase(b))
   /\ enames' = Append(enames, ExternName(b))
   /\ counter' = [counter EXCEPT ![b] = @ + 1]
-Next == \E b \in Base : Declare(b)
+  /\ UNCHANGED nctors
+(* a constructor: the wrapper is called `new` (same probing, same set), the extern function is named after the class *)
+CtorMethodName ==
+  IF Probing THEN (IF "new" \in Range(mnames) THEN Probe("new", Range(mnames)) ELSE "new")
+  ELSE (IF nctors > 0 THEN Suffix("new", nctors) ELSE "new")
+CtorExternBase == IF nctors > 0 THEN Suffix(Class, nctors) ELSE Class
+DeclareCtor ==
+  /\ nctors < MaxCtors
+  /\ decls' = Append(decls, Ctor)
+  /\ mnames' = Append(mnames, CtorMethodName)
+  /\ ebases' = Append(ebases, CtorExternBase)
+  /\ enames' = Append(enames, LET x == CtorExternBase IN IF TimesSeen(x) > 0 THEN Suffix(x, TimesSeen(x)) ELSE x)
+  /\ nctors' = nctors + 1
+  /\ UNCHANGED <<fnames, counter>>
+Next == (\E b \in Base : Declare(b)) \/ DeclareCtor
 Spec == Init /\ [][Next]_vars
 
 Unique(s) == \A i, j \in DOMAIN s : i # j => s[i] # s[j]
@@ -93,13 +110,16 @@ FunctionsUniqueExactlyOutsideClass == Unique(fnames) <=> ~CounterCollides
 ExternUnique == Unique(enames)
 (* what is checked instead: a collision needs two declared names one of which is a suffixed spelling of the   *)
 (* other - classes whose method names do not look like that are safe                                          *)
-SuffixLikePair == \E b, c \in Range(decls) : \E k \in 1..MaxDecls : c = Suffix(b, k)
+Spelled == {IF d = Ctor THEN Class ELSE d : d \in Range(decls)}
+SuffixLikePair == \E b, c \in Spelled : \E k \in 1..(MaxDecls + MaxCtors) : c = Suffix(b, k)
 ExternCollisionNeedsSuffixLikeNames == ~Unique(enames) => SuffixLikePair
 
 (* a declaration that is the first of its name and collides with nothing keeps its name (the user finds it) *)
 FirstKeepsName ==
   \A i \in DOMAIN decls :
-     (\A j \in 1..(i - 1) : decls[j] # decls[i]) /\ decls[i] \notin {mnames[j] : j \in 1..(i - 1)}
+     (/\ decls[i] # Ctor
+      /\ \A j \in 1..(i - 1) : decls[j] # decls[i]
+      /\ decls[i] \notin {mnames[j] : j \in 1..(i - 1)})
         => mnames[i] = decls[i]
 
 Emit == PrintT(<<"OVL", ToJson([decls |-> decls, methods |-> mnames, functions |-> fnames, externs |-> enames])>>)
